@@ -1,0 +1,35 @@
+//go:build verif
+
+// Contracts for govc (contract-based deductive verification, see /verif/DESIGN.md).
+// This file contains comments only; it is compiled only with -tags=verif and adds no code.
+
+package md
+
+//@ package md
+//@
+//@ func loadMd
+//@   prop C19
+//@   # Fence(i): a ``` fence starts at rune index i of the *input* as given.
+//@   ghost Fence(i int) bool = 0 <= i && i <= len(input)-3 && input[i] == '`' && input[i+1] == '`' && input[i+2] == '`'
+//@   # Code(i): an odd number of fences start before index i (i.e. index i lies in a fenced block, fences toggle the mode)
+//@   ghost Code(i int) bool
+//@   ghostaxiom [code0] Code(0) == false
+//@   ghostaxiom [codeS] all(i, 0, len(input), Code(i+1) == (Code(i) != Fence(i)), trig(Code(i)))
+//@   # the property quantifies over files whose fences are bare ``` runs: fence starts do not overlap or touch
+//@   requires [bare] all(i, 0, len(input), imp(Fence(i), !Fence(i+1) && !Fence(i+2) && !Fence(i+3)))
+//@   ensures [len] len(input) == old(len(input))
+//@   ensures [fence] all(i, 0, len(input), imp(Fence(i) || Fence(i-1) || Fence(i-2), input[i] == ' '))
+//@   ensures [code] all(i, 0, len(input), imp(!(Fence(i) || Fence(i-1) || Fence(i-2)) && Code(i), input[i] == old(input[i])))
+//@   ensures [prose] all(i, 0, len(input), imp(!(Fence(i) || Fence(i-1) || Fence(i-2)) && !Code(i), input[i] == ite(old(input[i]) == '\n', '\n', ' ')))
+//@   assigns elems(input)
+//@   loop 1
+//@     invariant [i] 0 <= i && i <= len(input)
+//@     invariant [aligned] !Fence(i-1) && !Fence(i-2)
+//@     invariant [mode] text == !Code(i)
+//@     invariant [rest] all(k, i, len(input), input[k] == old(input[k]))
+//@     invariant [fence] all(k, 0, i, imp(Fence(k) || Fence(k-1) || Fence(k-2), input[k] == ' '))
+//@     invariant [code] all(k, 0, i, imp(!(Fence(k) || Fence(k-1) || Fence(k-2)) && Code(k), input[k] == old(input[k])))
+//@     invariant [prose] all(k, 0, i, imp(!(Fence(k) || Fence(k-1) || Fence(k-2)) && !Code(k), input[k] == ite(old(input[k]) == '\n', '\n', ' ')))
+//@     decreases len(input) - i
+//@   loop 2
+//@     unroll 3
